@@ -2,7 +2,7 @@
     planned changes of Sqlite/PlanModel.v and [migrate.Change] as the formatters see it
     (Lex/DownModel.v), and the well-formedness of engine states the inverse lemmas need.
     No proofs in this file. *)
-From Coq Require Import List NArith ZArith Bool Arith.
+From Coq Require Import List NArith ZArith Bool Arith Permutation.
 From Atlas Require Import Base.Bytes Diff.Schema Diff.DiffModel Diff.DiffSqlite
   Sqlite.PlanModel Sqlite.EngineModel Sqlite.InspectModel Lex.DownModel.
 Import ListNotations.
@@ -92,3 +92,55 @@ Definition x_wf (x : xtable) : bool := forallb (has_col (x_t x)) (x_autoinc x).
 Definition stmt_wf (s : stmt) : bool :=
   match s with SCreateTable x _ => x_wf x | _ => true end.
 Definition xschema_wf (l : xschema) : bool := forallb x_wf l.
+
+(** ** the drop-index arm
+
+    dropIndexes:  DROP INDEX n  <- CREATE INDEX n ON t (..)
+    The reverse re-creates the index from the *inspected* current schema, so the engine gets it
+    back at the end of the table's index list and in inspected form: the state is restored up to
+    [sim] (same tables, same everything but the index lists, which agree up to order and
+    [inspect_index]). *)
+Definition drop_index_arm (pc : pchange) : option (str * str * index) :=
+  match pc_cmd pc, pc_reverse pc with
+  | SDropIndex n, [SCreateIndex t i] => if str_eqb (i_name i) n then Some (n, t, i) else None
+  | _, _ => None
+  end.
+
+Definition ct_rest (c : ctable) : ctable := set_ct_t c (set_t_idx (ct_t c) []).
+Definition ct_idx (c : ctable) : list index := t_idx (ct_t c).
+
+Definition ct_sim (c c' : ctable) : Prop :=
+  ct_rest c = ct_rest c' /\
+  Permutation (map inspect_index (ct_idx c)) (map inspect_index (ct_idx c')).
+
+Definition sim (d a : db) : Prop :=
+  db_fk d = db_fk a /\ db_tx d = db_tx a /\ Forall2 ct_sim (db_tables d) (db_tables a).
+
+(** the condition under which the planner's reverse of DROP INDEX n is faithful at state [d]:
+    table [t] of [d] holds an index [j] called [n] that inspects like [i]; [n] can be created
+    again (not empty, not reserved), the parts of [i] are columns of [t] or expressions, and the rows of [t] do not break [i] when it is UNIQUE
+    (SQLite guarantees that of an existing unique index; the abstract engine keeps no such
+    invariant, so it is stated). *)
+Definition faithful_idx (d : db) (n t : str) (i : index) : Prop :=
+  exists ct j,
+    find_ct t (db_tables d) = Some ct /\ In j (ct_idx ct) /\ i_name j = n /\
+    inspect_index j = inspect_index i /\
+    n <> [] /\ reserved_name n = false /\
+    i_parts i <> [] /\ first_err (part_ok_b (ct_t ct)) (i_parts i) = EngineModel.Ok tt /\
+    match i_unique i, i_pred i, part_col_names (i_parts i) with
+    | true, None, Some cols => has_dup_on cols (ct_rows ct) = false
+    | _, _, _ => True
+    end.
+
+(** every name of the namespace tables and indexes share is used once *)
+Definition names_ok (d : db) : Prop := NoDup (all_names (db_tables d)).
+
+(** the changes of a list, each judged at the state it executes in *)
+Fixpoint arms_ok (d : db) (l : list pchange) : Prop :=
+  match l with
+  | [] => True
+  | pc :: l' =>
+      ((additive pc = true /\ stmt_wf (pc_cmd pc) = true) \/
+       (exists n t i, drop_index_arm pc = Some (n, t, i) /\ faithful_idx d n t i)) /\
+      forall dm, exec d (pc_cmd pc) = EngineModel.Ok dm -> arms_ok dm l'
+  end.
